@@ -28,6 +28,7 @@ EXPLANATION = (
     "levels (shift leaves the range level alone). Not decided: histogram and re-binning conservation (numpy.histogram "
     "semantics, value-dependent overlap arithmetic).")
 EXPLANATION += (" R-C14-3: histogram combination aggregates the concatenated histograms per class with the requested method; the overlap share telescopes on every ordering of the interval bounds. R-C14-4: the range/mean histogram is fed with 2*amplitude and meanstress on both orderings of from/to, the range histogram counts 2*amplitude of the same collective, and re-binning selects each level's binning by the level's name.")
+EXPLANATION += (' R-C14-5: the histogram utilities (re-binning, combination) apply no constant positional access or order-sensitive operation to the source histogram or its index (order-class analysis), so the result does not depend on the order in which the source classes are listed.')
 ASSUMPTIONS = ["DataFrame.max(axis=1)/min(axis=1) over the two columns is the row-wise max/min", "range >= 0"]
 
 
@@ -149,6 +150,52 @@ def run(ctx):
     ctx.attempt(_r2)
     ctx.attempt(_r3)
     ctx.attempt(_r4)
+    ctx.attempt(_r5)
+
+
+def _r5(ctx):
+    """Re-binning and combining do not depend on the order in which the classes of the source histogram are listed: no
+    constant positional access (first/last element, head/tail, cumulative operations) on the histogram or its index.  The
+    extent of a histogram is min(left) .. max(right), not left[0] .. right[-1]."""
+    from ..orders import Orders
+    prog = ctx.prog
+    ctx.rule("R-C14-5", floor=1, what="histogram utilities are independent of the order of the source classes (no positional access)")
+    names = ("histogram", "index")
+
+    def seed(fi):
+        env = {q: "ROW" for q in fi.params if q in names}
+        if fi.parent is not None:
+            env.update({q: "ROW" for q in fi.parent.params if q in names})
+        return env
+    o = Orders(prog, {"pylife.utils.histogram"}, seed_env=seed)
+    n = o.run()
+    seen = set()
+    for fi, st, node, msg in o.sinks:
+        k = (fi.key, norm_text(node))
+        if k in seen:
+            continue
+        seen.add(k)
+        ctx.violated(fi, st, "%s: %s - the source histogram may list its classes in any order (e.g. after combine_histogram), so "
+                     "the result depends on that order" % (fi.name, msg), text=norm_text(node))
+    if not o.sinks:
+        ctx.holds("pylife.utils.histogram", None, "%d functions of the histogram utilities: no positional access to the source "
+                  "histogram or its index" % n, {"functions": n})
+    # positive example
+    from ..frontend import Program as _P, Module as _M, set_parents as _sp
+    import ast as _a
+    src = ("def f(index, n):\n    a = index.left[0]\n    b = index.left.min()\n    return a, b\n")
+    tree = _sp(_a.parse(src))
+    p2 = object.__new__(_P)
+    p2.root, p2.overrides, p2._base = "", {}, None
+    p2.modules = {"ex": _M("ex", "ex.py", src, tree, "0")}
+    p2.modules["ex"].pysource = src
+    p2.functions, p2.classes, p2.accessors, p2._subclasses = {}, {}, {}, {}
+    p2._index()
+    o2 = Orders(p2, {"ex"}, seed_env=lambda fi: {"index": "ROW"})
+    o2.run()
+    if len(o2.sinks) != 1:
+        raise AnalysisError("order-class positive example failed: %d sinks" % len(o2.sinks))
+    ctx.holds("selftest:positive-example", None, "positional access index.left[0] is reported, index.left.min() is not")
 
 
 def _r4(ctx):
@@ -653,6 +700,18 @@ AP = "src/pylife/stress/collective/abstract_load_collective.py"
 
 def variants():
     out = []
+
+    def extent_by_position(tree):
+        f = find_func(tree, "_do_rebin_histogram")
+        for n in ast.walk(f):
+            if isinstance(n, ast.FunctionDef) and n.name == "binning_of_n_bins":
+                for st in n.body:
+                    if isinstance(st, ast.Assign) and isinstance(st.value, ast.Call) and isinstance(st.value.func, ast.Attribute) and \
+                            st.value.func.attr == "min":
+                        st.value = parse_expr(ast.unparse(st.value.func.value) + "[0]")
+                        return True
+        return False
+    out.append(witness("extent of the source histogram taken from its first class", "src/pylife/utils/histogram.py", extent_by_position, "R-C14-5"))
 
     def amp_full(tree):
         f = find_func(tree, "LoadCollective.amplitude")
